@@ -57,7 +57,13 @@ Qed.
 (* ------------------------------------------------------------------------------------------ *)
 (* 3. Requests that differ in a field the identity determines, or in the (hyphen-normalised)
       requested name, NEVER end up with the same calculation name — at whatever positions p, q
-      of whatever clean history they are issued. *)
+      of whatever clean history they are issued.  The fields of a model request are the PRINTED
+      forms the code hashes (repr(keywords), str(list(set(cartesian))), the distance dict in
+      insertion order, solvent name ...): "different keywords" here means "keywords that print
+      differently".  Keyword objects that print alike but carry different method strings, and equal
+      constraints given in another order, are outside this statement; both are reported by
+      implementation oracles (finding keys keyword-method-string-not-hashed,
+      constraint-insertion-order-dependent). *)
 Theorem distinct_requests_distinct_names : forall (h : list request) p q ra rb Na Nb,
   Forall clean_req h ->
   nth_error h p = Some ra -> nth_error h q = Some rb ->
@@ -244,9 +250,11 @@ Proof.
 Qed.
 
 (* ------------------------------------------------------------------------------------------ *)
-(* 9. Clean-up.  In every mode except `everything` only the calculation's own files are removed:
-      every file of the directory that belongs to another calculation survives.  With
-      everything=True the same holds for files the selection rule does not match. *)
+(* 9. Clean-up (PARTIAL).  "Own" files are those WRITTEN in this run (input file, the additional
+      files the wrapper wrote: oracle o_aux, output, scratch).  For an object that declares no stale
+      additional file: in every mode except `everything` every file of the directory that belongs
+      to another calculation survives; with everything=True the same holds for files the selection
+      rule does not match. *)
 Theorem cleanup_only_own_files_partial : forall (st : state) (o : op) (f : file),
   o_stale o = [] ->
   In f (ex_fs2 st o) -> f_owner f <> ex_N st o ->
@@ -300,7 +308,10 @@ Proof.
 Qed.
 
 (* ------------------------------------------------------------------------------------------ *)
-(* 10. Concurrent workers.  ASSUMPTION (stated in Model.v, not proved): appending one registry
+(* 10. Concurrent workers (PARTIAL in scope: each worker performs ONE registration — one read of
+       the whole file and, later, one append; workers that issue several calculations without
+       synchronisation, run()/clean_up and the optimisation executor are not covered).
+       ASSUMPTION (stated in Model.v, not proved): appending one registry
        line is atomic.  For workers whose candidate names are pairwise disjoint, EVERY interleaving
        of their (read whole file; later append) steps ends with the initial lines intact and in
        place, followed by exactly the lines the workers would have appended running alone — none
